@@ -212,7 +212,7 @@ func CheckC02(c *C02Case, st *Stats) error {
 
 func init() {
 	Register("C02",
-		"rapid-generated value trees as in C01 (shared instances and 1001-1500 nesting levels included) plus an exhaustive sweep of all 1,112,064 Unicode scalar values (each once inside a value and once inside a key, 256 per container). One case in twelve obtains its container by parsing a short text in the spellings the lenient parser tolerates (0x1F, 1_000, +1, .5, 1E5, 1.50, T ...) and is skipped if the library rejects it. The text of String() is read by a strict RFC 8259 scanner written in the harness (cross-checked against encoding/json on every case) and its token tree compared with the generator's tree. Non-trivial = the text contains an escape, a non-ASCII byte or an exponent-form number. Distinct = distinct FNV-64a hash of the case JSON.",
+		"rapid-generated value trees as in C01 (shared instances and 1001-1500 nesting levels included) plus an exhaustive sweep of all 1,112,064 Unicode scalar values (each once inside a value and once inside a key, 256 per container). One case in twelve obtains its container by parsing a short text in the spellings the lenient parser tolerates (0x1F, 1_000, +1, .5, 1E5, 1.50, T ...) and is skipped if the library rejects it. The text of String() is read by a strict RFC 8259 scanner written in the harness (cross-checked against encoding/json on every case) and its token tree compared with the generator's tree. Non-trivial = the text contains an escape, a non-ASCII byte or an exponent-form number. Distinct = distinct FNV-64a hash of the case JSON. Construction routes, floats 1-3 ulps beside short decimals, and the nested mutations mixedsort / clearrekey as in C01.",
 		GenC02, CheckC02)
 	_ = at.TypeNil
 }
